@@ -163,8 +163,8 @@ def check(repo, col, tier):
 # --------------------------------------------------------------------------------------
 
 
-def _assembly_jaxley(repo, col):
-    R = "R-C01-assembly"
+def _assembly_jaxley(repo, col, R=None):
+    R = R or "R-C01-assembly"
     fi = repo.func(SV, "step_voltage_implicit_with_jaxley_spsolve")
     tri = repo.func(SV, "_triang_branched")
     ev = _arr_eval(repo)
@@ -223,8 +223,8 @@ def _assembly_jaxley(repo, col):
     return a
 
 
-def _assembly_sparse(repo, col):
-    R = "R-C01-assembly"
+def _assembly_sparse(repo, col, R=None):
+    R = R or "R-C01-assembly"
     fi = repo.func(SV, "step_voltage_implicit_with_jax_spsolve")
     # rebuild the pieces from the function environment: evaluate again, keeping the env
     ex = idxm.expander(repo, fi)
@@ -312,7 +312,7 @@ def _assembly_sparse(repo, col):
                                     T.find(x.args[0], lambda y: y.op == "mcall" and y.name == "arange") is not None) is not None
     col.check(okc, R, cfi, "index order (diagonals, off-diagonals) matches all_values", "diagonal indices first",
               "all_inds does not list the diagonal indices first", node=cfi.node)
-    _dimension(repo, col)
+    _dimension(repo, col, R)
     # result read at the internal nodes
     r = ex.returns[-1] if ex.returns else None
     ok = r is not None and T.find(r, lambda x: x.op == "sub" and x.args[1].op == "param" and x.args[1].name == "internal_node_inds") is not None
@@ -320,10 +320,10 @@ def _assembly_sparse(repo, col):
               f"returns {r.short() if r else None}", node=fi.node)
 
 
-def _merge(repo, col):
+def _merge(repo, col, R=None):
     """merge_cells: per-cell lists of levels (lengths L_c) are merged level by level; the merged
     schedule must have max_c L_c levels and contain level i of every cell that has one."""
-    R = "R-C01-merge"
+    R = R or "R-C01-merge"
     fi = repo.func("jaxley/utils/cell_utils.py", "merge_cells")
     ex = idxm.expander(repo, fi)
     r = ex.returns[-1] if ex.returns else None
@@ -368,13 +368,13 @@ def _merge(repo, col):
     col.unk(R, fi, "merge_cells: number of merged levels", "merge idiom not recognised", node=fi.node)
 
 
-def _dimension(repo, col):
+def _dimension(repo, col, R=None):
     """The generic sparse system has one row per compartment and per branch point.  Inside one
     cell every node is the sink of some edge (edges come in both directions), so
     `max(sinks) + 1` is the node count; a Network is a *disjoint union* of cells -- a cell
     without edges (single compartment) that comes last has no sink, so the dimension must
     come from the node tables there."""
-    R = "R-C01-assembly"
+    R = R or "R-C01-assembly"
     fi = repo.method("Network", "_init_morph_jax_spsolve")
     ex = idxm.expander(repo, fi)
     call = next((c for c in ex.calls if isinstance(c.func, ast.Name) and c.func.id == "comp_edges_to_indices"), None)
